@@ -494,6 +494,12 @@ func main() {
 				fmt.Println(out)
 			}
 			fmt.Printf("%s: %s\n", f.Class, f.Msg)
+			if !*raw && strings.Contains(out, "REPLAY-KNOWN") {
+				// the replayed failure is a recorded known finding (use --raw to judge it
+				// without the known-findings file)
+				fmt.Printf("KNOWN-FINDING: property=%s replay of %s reproduces a recorded finding (%s [%s])\n", prop, filepath.Base(*replay), f.Class, f.Sig)
+				exit(0)
+			}
 			fmt.Printf("VIOLATION property=%s replay=%s\n", prop, *replay)
 			exit(1)
 		}
